@@ -53,6 +53,7 @@ type World struct {
 	forOfRange    map[*ast.RangeStmt]*ast.ForStmt
 	astSites      map[string][]astCallSite
 	newParams     map[types.Object]newParam
+	constTbl      map[*types.Var]*constTable
 }
 
 type FuncInfo struct {
